@@ -22,14 +22,31 @@
       ([t2d_check p = Some true], evaluated by the driver on every generated program), the code's
       reading of the record created from the program has exactly the valid sequences of [doc_sem p].
 
-    FULL STATEMENT (not proved; per run: 0 counterexamples on 8000 generated programs, 4027 inside the guard)
+    - [T2d_derived_sem_eqv] / [T2d_derived_valid] (UNCONDITIONAL under the boolean guard [t2d_guard2],
+      Front/DerivedGuard2.v; proof files Front/DerivedT2Flat.v (O1), DerivedT2Doc.v (O2), DerivedT2Tables.v (O4, O2),
+      DerivedT2Keys.v (O3 documented side), DerivedT2Cons.v (O5), DerivedT2Main.v (O3 code side, O6),
+      DerivedT2Final.v (guard -> hypotheses)):
 
-      Theorem T2d_derived_sem_eqv : forall p ci fb ds,
-        derived_input p = Some ci -> t2d_guard p = true -> create_flat ci = FOk fb -> doc_sem p = Ok ds ->
-        sem_eqv_t (code_sem fb) (ds_sem ds).
-      Theorem T2d_derived_valid : (same hypotheses) -> forall s, valid_b (code_sem fb) s = valid_b (ds_sem ds) s.
+        forall p ci fb ds, derived_input p = Some ci -> t2d_guard2 p = true -> create_flat ci = FOk fb ->
+          doc_sem p = Ok ds -> sem_eqv_t (code_sem fb) (ds_sem ds)           (and equal [valid_b])
 
-    i.e. [t2d_guard p = true -> (hypotheses) -> t2d_check p = Some true].  [t2d_guard]
+      [t2d_guard2 p] = [t2d_guard p] (below) and: every factor of the crossing is a simple factor (the
+      derived factors are outside the crossing: the uncrossed-congruency Stroop shape), no Exclude names
+      a level of a derived factor, and [wf_derived]: every tuple of an explicit level's table is the key
+      of a combination of level names of the window factors, and every such combination matches exactly
+      one level.  Constraints (row kinds on a level or a whole factor, Pin) may name derived levels;
+      Exclude names simple levels (crossed or not); weights, else levels, MinimumTrials,
+      require_complete_crossing are covered.  Per run (harness/t2_corr.py derived, 3000 generated
+      programs): 660 inside [t2d_guard2] = 43% of the 1541 inside [t2d_guard] on which the constructor
+      succeeds; the driver prints guard2=.. beside guard=.. (extract/drv_t2.ml, command t2derived).
+    - [T2d_guard_alone_refuted]: [t2d_guard] alone does NOT imply the tie.  Witness
+      (Front/DerivedT2Examples.v [malformed]): a table tuple with three columns for two window factors
+      never matches the predicate of harness/ir.py (and the code's table omits it), but [enc_table]
+      (zip with the window factors) truncates it to a well-shaped tuple that the documented level then
+      accepts: [t2d_guard malformed = true] and [~ sem_eqv_t].  The generator never produces such a
+      table; [wf_derived] excludes it.
+
+    [t2d_guard]
     (Front/DerivedGuard.v, boolean): design and crossing list every factor once, non-empty crossing,
     simple factors before derived ones in the design, every factor has a level and distinct level
     names, derived factors are WithinTrial over distinct simple factors of the design, no tuple
@@ -38,35 +55,25 @@
     factor takes part in the crossing arithmetic) and [uncrossed_ok] (an excluded level of an
     uncrossed derived factor reads crossed factors only, or removes no combination).
 
-    REMAINING OBLIGATIONS, following Front/PlainT2Main.v (each is the derived analogue of a proved
-    plain lemma; none is known to fail):
-    (O1) flat normal form (analogue of PlainT2Flat.create_flat_ci): with
-         [size = list_sum (map W (all_crossings cr)) - derived_exclusions ...],
-         [create_flat ci = FOk fb] gives fl_design = the factor table of [derived_factors],
-         fl_sizes = [size], fl_preambles = [0], fl_trials = max(min_trials, max 1 size),
-         fl_weights = [ceil(T / size)], fl_act = design minus the implied derived factors;
-         needs [trials_required fb f size = Some size] for WithinTrial factors (start 0, stride 1).
-    (O2) doc normal form (analogue of Design/DocSemPlain.feasible_plain): for a within factor over
-         simple factors, [window_params] = (deps, 1, 1, 0), [is_complex] = false,
-         [within_value] = the unique level whose table contains the key (uses "no tuple matches two
-         levels" and totality from the guard), and [feasible_combos design cr excl] = the fold over
-         the assignments of the basic factors described by [skip] / the derived values.
-    (O3) combos: under [joint_free] and [uncrossed_ok], for every combination c of [all_crossings]:
-         c survives [trial_combinations_of fb] (not [fl_exclude], not [fl_excluded_derived] as
-         built by [derived_excluded_derived], not [impossible]) iff its names are a key of
-         [feasible_combos], with weight [combo_weight_idx c]; and c is in [excluded_crossings] iff
-         it does not survive - so that fl_sizes = sum of the feasible weights (x_S of doc_crossing).
-    (O4) factor tables: for a derived factor, [lv_accepts] of [derived_levels] (cross-product order)
-         and [enc_table deps (accepted_tables fd)] (sorted by repr, else level = complement incl.
-         None cells) accept the same all-Some tuples: [window_eqv]; uses distinct level names.
-    (O5) constraints: [flat_map code_constraint (fl_constraints fb)] =
-         [sem_constraint] of the expanded [own_constraints] (PlainT2Cons.v carries over: [level_index]
-         already serves derived factors; the Derivation constraints map to []), and
-         [pos_of forder] = position in the design ([simple_first]: the depth sort is the identity).
-    (O6) assembly as in PlainT2Main.plain_sem_eqv, concluding [sem_eqv_t] instead of [sem_eqv]. *)
+    NOT PROVED (the part of [t2d_guard] outside [t2d_guard2]; on it the tie is still the per-run
+    verdict of the checker, [T2d_derived_sem_eqv_partial], 0 counterexamples among the generated
+    programs with well-formed tables):
+    (R1) a derived factor INSIDE the crossing: [impossible] combinations, the multiplicities of
+         combinations that contain a derived level ([feasible_combos]: the crossed derived value is the
+         [within_value] of the assignment), [trials_required] of a WithinTrial factor (start 0, stride 1:
+         = size), [joint_free];
+    (R2) an Exclude of a level of an UNCROSSED derived factor: [exclude_hits] through
+         [excluded_derived_pred], [fl_excluded_derived] ([derived_excluded_derived]) in
+         [is_excluded_combination], the skipped assignments of [feasible_combos], [uncrossed_ok];
+    both need, beyond the lemmas proved here, the link [accepts_idx fds f l args] =
+    [dl_accepts levels lev (key_of dnames args)] (by [entry_matches] on [derived_levels]), after which
+    [tab_mem] / [within_value_some] of Front/DerivedT2Tables.v identify the documented value of the
+    derived factor with the level the flat table accepts.  The well-formedness of the tables
+    ([wf_derived]) is needed in any case ([T2d_guard_alone_refuted]). *)
 From Coq Require Import ZArith List Bool Arith String.
 From SP Require Import Design.Sem Design.Flat Design.DocSem Design.SemEqv Design.SemEqvT Design.SemEqvTB Design.SemEqvTBProofs
-     Front.CreateFlat Front.DerivedInput Front.DerivedGuard Front.DerivedCheck Front.DerivedT2 Encode.CodeSem.
+     Front.CreateFlat Front.DerivedInput Front.DerivedGuard Front.DerivedCheck Front.DerivedT2 Encode.CodeSem
+     Front.DerivedGuard2 Front.DerivedT2Final Front.DerivedT2Examples.
 Import ListNotations.
 Local Open Scope nat_scope.
 
@@ -102,3 +109,32 @@ Proof. exact stroop_uncrossed_ok. Qed.
 
 Example T2d_stroop_crossed : t2d_guard stroop_crossed = true /\ t2d_check stroop_crossed = Some true.
 Proof. exact stroop_crossed_ok. Qed.
+
+(** * the unconditional statement under the narrower guard [t2d_guard2] *)
+Theorem T2d_derived_sem_eqv : forall p ci fb ds,
+  derived_input p = Some ci -> t2d_guard2 p = true -> create_flat ci = FOk fb -> doc_sem p = Ok ds ->
+  sem_eqv_t (code_sem fb) (ds_sem ds).
+Proof. exact derived_t2. Qed.
+Print Assumptions T2d_derived_sem_eqv.
+
+Theorem T2d_derived_valid : forall p ci fb ds,
+  derived_input p = Some ci -> t2d_guard2 p = true -> create_flat ci = FOk fb -> doc_sem p = Ok ds ->
+  forall s, valid_b (code_sem fb) s = valid_b (ds_sem ds) s.
+Proof. exact derived_t2_valid. Qed.
+Print Assumptions T2d_derived_valid.
+
+(** [t2d_guard] alone does not imply the tie (a table tuple with a column too many) *)
+Theorem T2d_guard_alone_refuted : exists p ci fb ds,
+  derived_input p = Some ci /\ t2d_guard p = true /\ create_flat ci = FOk fb /\ doc_sem p = Ok ds /\
+  ~ sem_eqv_t (code_sem fb) (ds_sem ds).
+Proof. exact guard_alone_refuted. Qed.
+Print Assumptions T2d_guard_alone_refuted.
+
+(** the uncrossed-congruency Stroop program (crossing [color, text], congruent outside the crossing,
+    an Exclude of a colour, a run constraint on a derived level, MinimumTrials) is inside [t2d_guard2];
+    an Exclude of a derived level and a crossed derived factor are outside it *)
+Example T2d_stroop_uncrossed2 : t2d_guard2 stroop_uncrossed2 = true /\ t2d_check stroop_uncrossed2 = Some true.
+Proof. exact stroop_uncrossed2_ok. Qed.
+
+Example T2d_stroop_outside_guard2 : t2d_guard2 stroop_uncrossed = false /\ t2d_guard2 stroop_crossed = false.
+Proof. exact stroop_outside_guard2. Qed.
